@@ -147,7 +147,7 @@ fn state_f(m: &Renko, field: &str) -> Result<f64, Failure> {
 	v[field].as_f64().ok_or_else(|| Failure::new("C17:renko:serialize", format!("no field {field} in {v}")))
 }
 
-fn run_renko(c: &RenkoCase, st: &mut Stats) -> CaseResult {
+pub fn run_renko(c: &RenkoCase, st: &mut Stats) -> CaseResult {
 	let b = gen::vt(c.brick);
 	let src = crate::props::c18::SOURCES[c.source as usize % 8];
 	// sources that are products/averages of fields are driven through flat candles
@@ -182,7 +182,9 @@ fn run_renko(c: &RenkoCase, st: &mut Stats) -> CaseResult {
 			}
 		};
 		let price = gen::vt(price);
-		if !(price.is_finite() && price > 0.0) {
+		// prices stay in the normal range (a long chain of downward jumps would reach subnormal values,
+		// where relative ulp-based tolerances lose their meaning)
+		if !(price.is_finite() && price > 1e-150 && price < 1e150) {
 			continue;
 		}
 		let vol = volume_of(*vsel);
@@ -306,6 +308,7 @@ pub fn def(tier: Tier) -> PropertyDef {
 	for i in 0..6 {
 		checks.push(pt(&format!("renko_{i}"), tier.pick(5000, 60000), renko_strategy(tier.pick(60, 200)), run_renko));
 	}
+	checks.extend(crate::fuzz_entry::corpus_checks("C17"));
 	PropertyDef {
 		id: "C17",
 		level: "exploration",
